@@ -138,6 +138,13 @@ func singleOp(op string, kinds []progs.Kind, n int) *progs.Program {
 	for k := 0; k < progs.NbResults(in); k++ {
 		p.Exposed = append(p.Exposed, len(kinds)+k)
 	}
+	// the operands are exposed again after the operation: an API call must not change the
+	// value of a variable the caller still holds (only MulAcc documents that it may)
+	for i, k := range kinds {
+		if k != progs.Const {
+			p.Exposed = append(p.Exposed, i)
+		}
+	}
 	return p
 }
 
@@ -287,6 +294,7 @@ func TestC04(t *testing.T) {
 	mon := c06mon.Install(r, r.Pick(7, 3))
 	defer mon.Uninstall()
 	sweep(r)
+	aliasSweep(r)
 	programs(r)
 	r.Require("solve.accepted(expected)", 1000)
 	r.Require("solve.rejected(expected)", 1000)
@@ -405,5 +413,74 @@ func programs(r *vcore.Run) {
 				checkOne(r, c, consts, in, "prog/const-variant")
 			}
 		}
+	})
+}
+
+// aliasSweep: two boolean-consuming operations applied to the same variable, the second
+// time scaled by a constant (in the sparse builder: the same wire with another coefficient;
+// in R1CS: a linear expression over the same wire). "Already constrained" bookkeeping and
+// gate sharing must be per value. Inputs exhaustive over the 47-element field.
+func aliasSweep(r *vcore.Run) {
+	boolOps := []string{"AssertIsBoolean", "Xor", "Or", "And", "Select", "FromBinary", "Lookup2", "AssertIsCrumb"}
+	type job struct {
+		op1, op2 string
+		k        int64
+		builder  string
+	}
+	var jobs []job
+	for _, a := range boolOps {
+		for _, b := range boolOps {
+			for _, k := range []int64{2, -1, 3} {
+				for _, bl := range []string{"r1cs", "scs"} {
+					jobs = append(jobs, job{a, b, k, bl})
+				}
+			}
+		}
+	}
+	mk := func(op string, x, y int) progs.Instr {
+		switch op {
+		case "AssertIsBoolean", "AssertIsCrumb":
+			return progs.Instr{Op: op, Args: []int{x}}
+		case "Select":
+			return progs.Instr{Op: op, Args: []int{x, y, x}}
+		case "FromBinary":
+			return progs.Instr{Op: op, Args: []int{x, y}}
+		case "Lookup2":
+			return progs.Instr{Op: op, Args: []int{x, y, x, y, y, x}}
+		}
+		return progs.Instr{Op: op, Args: []int{x, y}}
+	}
+	vcore.Parallel(len(jobs), 14, func(ji int) {
+		j := jobs[ji]
+		// inputs: r0 = x (secret), r1 = y (public), r2 = literal k
+		p := &progs.Program{Inputs: []progs.Kind{progs.Sec, progs.Pub, progs.Const}, Lits: []*big.Int{nil, nil, big.NewInt(j.k)}}
+		i1 := mk(j.op1, 0, 1)
+		p.Instrs = append(p.Instrs, i1)
+		reg := 3 + progs.NbResults(i1)
+		p.Instrs = append(p.Instrs, progs.Instr{Op: "Mul", Args: []int{0, 2}}) // k*x
+		scaledReg := reg
+		reg++
+		i2 := mk(j.op2, scaledReg, 1)
+		p.Instrs = append(p.Instrs, i2)
+		for q := 3; q < reg+progs.NbResults(i2); q++ {
+			p.Exposed = append(p.Exposed, q)
+		}
+		c, err := progs.Compile(p, nil, tiny, j.builder)
+		r.Count("compilations", 1)
+		if err != nil {
+			r.Count("alias.compile-refused", 1)
+			return
+		}
+		rng := r.Rand(fmt.Sprintf("alias/%d", ji))
+		budget := r.Pick(400, 2209)
+		tuples(rng, 2, budget, func(t []int) {
+			in := []*big.Int{big.NewInt(int64(t[0])), big.NewInt(int64(t[1])), nil}
+			if budget < 2209 && rng.IntN(3) == 0 { // boolean-valued inputs are where aliasing shows
+				in[0], in[1] = big.NewInt(int64(rng.IntN(2))), big.NewInt(int64(rng.IntN(2)))
+			}
+			p.FillLits(in, tiny)
+			checkOne(r, c, nil, in, "alias")
+		})
+		r.Count("alias.programs", 1)
 	})
 }
